@@ -125,9 +125,12 @@ TieInPlane(c, b) == (PhiU(c, b) + BetaU(c, b)) % 2 = 1
 Singular(c, b) == \E d \in EndDets1(c, b) : d \in EndDets2(c, b)
 \* Known finding C12-tangedge: at the first/last tangential position an in-plane tie may be resolved
 \* towards the neighbouring detector pair one step OUTSIDE the tangential range
+\* (or, from the last view, towards the pair of the first view, whose tangential position has the opposite
+\* sign - outside an ASYMMETRIC range, which only arises by narrowing the range of an existing object)
 TangEdge(c, b) == /\ TieInPlane(c, b)
                   /\ \/ b.tang = c.maxTang /\ c.maxTang + 1 <= NV(c) - 1
                      \/ b.tang = c.minTang /\ c.minTang - 1 >= -(NV(c)) + 1
+                     \/ c.mash = 1 /\ b.view = NV(c) - 1 /\ (-b.tang < c.minTang \/ -b.tang > c.maxTang)
 \* idealised get_bin of detector-based data: nearest detectors/rings, then the C01 pair->bin map.
 \* Outcomes: a bin, or "miss" (NoBin)
 RTOutcomes(c, b, ipT) ==
